@@ -513,7 +513,11 @@ func (g *gen) step() {
 			c := int64(r.Intn(4))
 			g.nextSid++
 			n := len(h.outs)
-			h.doSnapshot(g.nextSid, t, c)
+			fail := 0
+			if r.Chance(35) {
+				fail = 1 + r.Intn(3)
+			}
+			h.doSnapshot(g.nextSid, t, c, fail)
 			if len(h.outs) > n && strings.HasPrefix(h.outs[len(h.outs)-1], "snap:") {
 				// the leader's log holds the snapshot's entries (never compared: the follower keeps none of them)
 				ti := h.terms[t]
@@ -639,7 +643,7 @@ func finish(o *hx.Out, h *H, kindKey string) {
 		// each property reports its own verdicts: C04 the fence/head ones, C03 the ack/truncate ones
 		mine := strings.HasPrefix(sig, "fenced:") || strings.HasPrefix(sig, "newterm:")
 		if *focus == "c03" {
-			mine = strings.HasPrefix(sig, "ack:") || strings.HasPrefix(sig, "truncate:") || strings.HasPrefix(sig, "attach:") || strings.HasPrefix(sig, "restart:")
+			mine = strings.HasPrefix(sig, "ack:") || strings.HasPrefix(sig, "truncate:") || strings.HasPrefix(sig, "attach:") || strings.HasPrefix(sig, "restart:") || strings.HasPrefix(sig, "apply:")
 		}
 		if !mine {
 			o.Count("other-property-verdict:" + sig)
@@ -709,7 +713,11 @@ func (h *H) exec(a string) {
 	case "BR":
 		h.doStreamBreak(int(atoi(f[1])))
 	case "SN":
-		h.doSnapshot(int(atoi(f[1])), atoi(f[2]), atoi(f[3]))
+		fail := 0
+		if len(f) > 4 {
+			fail = int(atoi(f[4]))
+		}
+		h.doSnapshot(int(atoi(f[1])), atoi(f[2]), atoi(f[3]), fail)
 	case "CR":
 		h.doCrashRestart(int(atoi(f[1])))
 	case "BL":
@@ -768,6 +776,12 @@ var builtin = [][2]string{
 	// restart after a truncation followed by appends of the same size: the log that comes back is the log that was there
 	{"NT:2;RO:1:2;AP:1:2:0:1:-1;AP:1:2:1:2:-1;AP:1:2:2:3:-1;AP:1:2:3:4:-1;AP:1:2:4:5:-1;SE:1;BR:1;NT:4;TR:4:2:1;RO:2:4;AP:2:4:2:21:-1;SE:2;BR:2;CR:0;NT:6;RO:3:6;AP:3:6:3:22:-1;AP:3:6:4:23:-1;SE:3;CR:0;NT:8",
 		"2=ok=2:0:1,2:1:2,2:2:3,2:3:4,2:4:5/4=ok=2:0:1,2:1:2,4:2:21/6=ok=2:0:1,2:1:2,4:2:21,6:3:22,6:4:23/8=bad="},
+	// snapshot installs that fail (before the first chunk, after it, with a chunk of another term), followed by NewTerm,
+	// Replicate, Truncate, another snapshot, a restart; the last one loses the stored term (known finding)
+	{"NT:2;RO:1:2;AP:1:2:0:1:-1;AP:1:2:1:2:-1;SE:1;BR:1;SN:2:2:1:1;NT:2;SN:3:2:1:2;NT:4;SN:4:4:2:3;TR:4:-1:-1;RO:5:4;SN:6:4:1;NT:6;SN:7:6:2;CR:0;NT:8",
+		"2=ok=2:0:1,2:1:2/4=bad=/6=bad=/8=bad="},
+	{"NT:6;TR:6:-1:-1;SN:1:6:0:2;CR:0;NT:2;NT:8", "6=bad=/2=bad=/8=bad="},
+	{"NT:2;RO:1:2;AP:1:2:0:1:-1;SE:1;BR:1;RACE/SN:2:2:1/recv1/NT:4;RACE/SN:3:4:1/recv2/NT:6;NT:6", "2=ok=2:0:1/4=bad=/6=bad="},
 	// a Truncate of the same term is refused once the node follows (with a stream, without, after acks)
 	{"NT:2;TR:2:-1:-1;TR:2:-1:-1;RO:1:2;AP:1:2:0:1:-1;AP:1:2:1:2:-1;SE:1;TR:2:2:0;BR:1;TR:2:2:0;TR:2:-1:-1;RO:2:2;AP:2:2:2:3:-1;SE:2",
 		"2=ok=2:0:1,2:1:2,2:2:3"},
@@ -919,6 +933,10 @@ func main() {
 	for i := 0; i < f.N/2+10; i++ {
 		genTrunc(o, r)
 	}
+	// snapshot install as a multi-step operation with faults and concurrent requests (spec verdicts only)
+	runSnapFailThenNewTerm(o, 2)
+	runSnapFailThenNewTerm(o, 3)
+	runSnapshotVsBusyApply(o)
 	// leader attaches a real follower: decision + replication end to end
 	if *focus == "c03" {
 		runAttach(o, mkLog(1, 2), mkLog(1, 1, 3, 3), 4)
